@@ -47,6 +47,13 @@ class JSRangeError(JSError):
         super().__init__(message, "RangeError")
 
 
+class JSURIError(JSError):
+    """JavaScript URI error (malformed URI sequence)."""
+
+    def __init__(self, message: str = ""):
+        super().__init__(message, "URIError")
+
+
 class MemoryLimitError(JSError):
     """Raised when memory limit is exceeded."""
 
